@@ -44,7 +44,18 @@ type session struct {
 	pan  [2]string
 	site [2]string
 	aLo  bool
+	// hung: the two parties did not finish within handshakeDeadline although
+	// nothing in the harness can block them (see handshakeOpt)
+	hung bool
+	// skipped: the scripts were not written because the ephemeral keys came out
+	// in the other order than the caller asked for
+	skipped bool
 }
+
+// handshakeDeadline is far above anything the code needs (a handshake plus a
+// 520-frame script takes milliseconds); it only exists so that a party that
+// never returns becomes a verdict instead of a hang.
+const handshakeDeadline = 120 * time.Second
 
 // handshake runs the real MakeSecretConnection on both ends (two goroutines).
 // After its own handshake succeeded, party i writes script[i] through its
@@ -52,9 +63,19 @@ type session struct {
 // act on handshake and data frames alike).  When both goroutines are done the
 // duplex is frozen and everything that follows is single-threaded.
 func handshake(keys [2]crypto.PrivKey, m *mitm, script [2][][]byte) *session {
+	return handshakeOpt(keys, [2]*mitm{m, nil}, script, -1)
+}
+
+// handshakeOpt: mitms[i] acts on what party i writes; wantALo = 1 / 0 asks for
+// a session in which A's ephemeral key sorts lower / higher than B's: when the
+// keys come out the other way the (possibly long) scripts are not written and
+// the session is marked skipped (the caller tries again); -1 = any order.
+func handshakeOpt(keys [2]crypto.PrivKey, mitms [2]*mitm, script [2][][]byte, wantALo int) *session {
 	s := &session{}
 	s.d, s.ep[0], s.ep[1] = newDuplex()
-	s.d.dir[0].mitm = m
+	s.d.dir[0].mitm = mitms[0]
+	s.d.dir[1].mitm = mitms[1]
+	var skip int32
 	var wg sync.WaitGroup
 	for i := 0; i < 2; i++ {
 		wg.Add(1)
@@ -65,6 +86,14 @@ func handshake(keys [2]crypto.PrivKey, m *mitm, script [2][][]byte) *session {
 				s.err[i] = err
 				if err == nil && sc != nil {
 					s.sc[i] = sc
+					if wantALo >= 0 {
+						// both ephemeral keys are on record once a handshake has succeeded
+						e0, e1 := s.d.unit(0, 0), s.d.unit(1, 0)
+						if (bytes.Compare(e0, e1) < 0) != (wantALo == 1) {
+							atomic.StoreInt32(&skip, 1)
+							return
+						}
+					}
 					for _, msg := range script[i] {
 						if n, werr := sc.Write(msg); werr != nil || n != len(msg) {
 							s.err[i] = fmt.Errorf("scripted write: n=%d err=%v", n, werr)
@@ -85,13 +114,51 @@ func handshake(keys [2]crypto.PrivKey, m *mitm, script [2][][]byte) *session {
 	go func() { wg.Wait(); close(done) }()
 	select {
 	case <-done:
-	case <-time.After(120 * time.Second):
-		core.Fatal("handshake goroutines did not finish within 120 s (harness deadlock; mitm=%+v)", m)
+	case <-time.After(handshakeDeadline):
+		// Reads of the duplex return io.EOF from now on, which releases a party
+		// that waits for bytes that will never come; a party that is stuck
+		// elsewhere is abandoned.
+		s.hung = true
+		s.d.freeze()
+		select {
+		case <-done:
+		case <-time.After(10 * time.Second):
+		}
+		hs := &session{d: s.d, ep: s.ep, hung: true}
+		hs.err[0], hs.err[1] = errHung, errHung
+		e0, e1 := s.d.unit(0, 0), s.d.unit(1, 0)
+		hs.aLo = bytes.Compare(e0, e1) < 0
+		return hs
 	}
 	s.d.freeze()
 	e0, e1 := s.d.unit(0, 0), s.d.unit(1, 0)
 	s.aLo = bytes.Compare(e0, e1) < 0
+	s.skipped = atomic.LoadInt32(&skip) != 0
 	return s
+}
+
+var errHung = fmt.Errorf("party did not return within %v", handshakeDeadline)
+
+// orderedSession repeats the handshake until A's ephemeral key has the wanted
+// order (the keys are random: two attempts on average).  build makes the man in
+// the middle of one attempt (it has state).
+func orderedSession(keys [2]crypto.PrivKey, build func() [2]*mitm, script [2][][]byte, aLo bool) *session {
+	want := 0
+	if aLo {
+		want = 1
+	}
+	for try := 0; ; try++ {
+		s := handshakeOpt(keys, build(), script, want)
+		if s.hung || (s.aLo == aLo && !s.skipped) {
+			return s
+		}
+		if s.aLo == aLo && s.skipped {
+			core.Fatal("harness: session skipped although the key order is the wanted one")
+		}
+		if try > 200 {
+			core.Fatal("cannot obtain a session in which A's ephemeral key is lo=%v", aLo)
+		}
+	}
 }
 
 // ---------------------------------------------------------------- stream cases
@@ -111,6 +178,7 @@ type kase struct {
 	Bit    int    `json:"bit,omitempty"`
 	ALo    bool   `json:"a_is_lo,omitempty"`
 	Script int    `json:"script,omitempty"`
+	Dir    int    `json:"dir,omitempty"` // the tampered direction: 0 = what A writes, 1 = what B writes
 
 	// auth
 	Lie string `json:"lie,omitempty"`
@@ -133,7 +201,10 @@ type ctx struct {
 	dataMax int
 
 	streamCases, mitmCases, authCases, leftoverCases, leftoverFailing int64
-	streamNontrivial, mitmApplied                                     int64
+	streamNontrivial, mitmApplied, longStreamCases                    int64
+
+	fl  *flights // cases being executed (stall watchdog)
+	cov *covState
 }
 
 func (c *ctx) report(sig map[string]string, k kase, detail string) {
@@ -149,21 +220,25 @@ func sum(a []int) int {
 }
 
 var (
-	keyA = detKey("node-A")
-	keyB = smallLengthKey()
+	keyA = smallLengthKey("node-A", 205392)
+	keyB = smallLengthKey("node-B", 3763)
 )
 
-// smallLengthKey returns B's node key.  The handshake reads a 4-byte
+// smallLengthKey returns a node key.  The handshake reads a 4-byte
 // little-endian length and allocates that many bytes before reading the auth
-// message; when a man in the middle reflects B's own auth-body frame into the
-// place of A's length frame, that "length" would be the type byte and the
-// first three bytes of B's public key if the frame ever decrypted (it does not
-// on the unchanged tree, but it does under a nonce mutation).  A key whose
-// public key has zero second and third bytes keeps that allocation below 64 KiB,
-// so that no case can make the harness allocate gigabytes.
-func smallLengthKey() crypto.PrivKeyEd25519 {
-	for i := 3763; ; i++ {
-		k := detKey(fmt.Sprintf("node-B-%d", i))
+// message; when a man in the middle reflects a party's own auth-body frame into
+// the place of the other party's length frame (or swaps the two auth frames),
+// that "length" would be the type byte and the first three bytes of a public
+// key if the frame ever decrypted (it does not on the unchanged tree, but it
+// does under a nonce mutation).  A key whose public key has zero second and
+// third bytes keeps that allocation below 64 KiB, so that no case can make the
+// harness allocate gigabytes.  (For the same reason no case ever delivers a
+// data frame in the place of a handshake frame of the same direction at a
+// distance: see mitmCases_.)  start = the first index that qualifies (found
+// once by search; the loop only re-checks it).
+func smallLengthKey(name string, start int) crypto.PrivKeyEd25519 {
+	for i := start; ; i++ {
+		k := detKey(fmt.Sprintf("%s-%d", name, i))
 		p := k.PubKey().(crypto.PubKeyEd25519)
 		if p[1] == 0 && p[2] == 0 {
 			return k
@@ -181,6 +256,10 @@ func orOK(s string) string {
 // checkCleanHandshake: with nobody in the middle both handshakes succeed and
 // each side authenticates exactly the other side's key.
 func (c *ctx) checkCleanHandshake(k kase, s *session, part string) bool {
+	if s.hung {
+		c.report(map[string]string{"part": part, "kind": "party-never-returns", "stage": "handshake"}, k, fmt.Sprintf("nobody in the middle: a party did not return from MakeSecretConnection / Write within %v (3 times out of 3)", handshakeDeadline))
+		return false
+	}
 	for i := 0; i < 2; i++ {
 		if s.pan[i] != "" {
 			c.report(map[string]string{"part": part, "kind": "panic", "site": s.site[i], "stage": "handshake"}, k, "panic in untampered handshake: "+s.pan[i])
@@ -203,10 +282,33 @@ func (c *ctx) checkCleanHandshake(k kase, s *session, part string) bool {
 
 // ---------------------------------------------------------------- man in the middle
 
+// mitmScripts[i] = what A and B write after the handshake.  Script 3 is the long
+// one: longFrames data frames in each direction, so that the per-direction frame
+// counter (it starts at the two handshake frames and advances by 2 per frame in
+// a 24-byte big-endian nonce, one direction on the even and one on the odd
+// values) crosses four carries out of its last byte in both parities.
 var mitmScripts = [][2][]int{
 	{{700, 1024, 1}, {1024, 9, 300}},
 	{{1, 1, 1}, {2, 2, 2}},
 	{{2053}, {1024, 1024, 1024}},
+	longScript(),
+}
+
+const (
+	longScriptIdx = 3
+	longFrames    = 520 // > 2*256+2
+)
+
+func longScript() [2][]int {
+	var a, b []int
+	for i := 0; i < longFrames; i++ {
+		a = append(a, 1024)
+	}
+	// B writes the same number of frames with writes of several sizes (2048 = two frames)
+	for i := 0; i < longFrames/5; i++ {
+		b = append(b, 2048, 1, 1023, 1024)
+	}
+	return [2][]int{a, b}
 }
 
 func mkScript(sizes []int, salt uint64) ([][]byte, []byte) {
@@ -218,6 +320,30 @@ func mkScript(sizes []int, salt uint64) ([][]byte, []byte) {
 		off += n
 	}
 	return msgs, all
+}
+
+type scriptData struct {
+	msgs  [][]byte
+	plain []byte
+}
+
+var (
+	scriptMu    sync.Mutex
+	scriptCache = map[[2]int]*scriptData{}
+)
+
+// scriptOf returns (read-only, shared) what party writes in script sc.
+func scriptOf(sc, party int) *scriptData {
+	scriptMu.Lock()
+	defer scriptMu.Unlock()
+	key := [2]int{sc, party}
+	if d, ok := scriptCache[key]; ok {
+		return d
+	}
+	d := &scriptData{}
+	d.msgs, d.plain = mkScript(mitmScripts[sc][party], uint64(101+101*party))
+	scriptCache[key] = d
+	return d
 }
 
 func (c *ctx) chunkSizes(sizes []int) []int {
@@ -235,32 +361,33 @@ func (c *ctx) chunkSizes(sizes []int) []int {
 	return chunks
 }
 
-// foreignUnits: the units party A sent in an unrelated clean session with the
+// foreignUnits: the units a party sent in an unrelated clean session with the
 // same node keys and script (for cross-session splicing).
 var (
 	foreignMu    sync.Mutex
-	foreignUnits = map[int][][]byte{}
+	foreignUnits = map[[2]int][][]byte{}
 )
 
-func (c *ctx) foreign(script int) [][]byte {
+func (c *ctx) foreign(script, dir int) [][]byte {
 	foreignMu.Lock()
 	defer foreignMu.Unlock()
-	if u, ok := foreignUnits[script]; ok {
+	key := [2]int{script, dir}
+	if u, ok := foreignUnits[key]; ok {
 		return u
 	}
-	a, _ := mkScript(mitmScripts[script][0], 101)
-	b, _ := mkScript(mitmScripts[script][1], 202)
-	s := handshake([2]crypto.PrivKey{keyA, keyB}, nil, [2][][]byte{a, b})
-	var us [][]byte
-	for i := 0; ; i++ {
-		u := s.d.unit(0, i)
-		if u == nil {
-			break
+	s := handshake([2]crypto.PrivKey{keyA, keyB}, nil, [2][][]byte{scriptOf(script, 0).msgs, scriptOf(script, 1).msgs})
+	for dd := 0; dd < 2; dd++ {
+		var us [][]byte
+		for i := 0; ; i++ {
+			u := s.d.unit(dd, i)
+			if u == nil {
+				break
+			}
+			us = append(us, u)
 		}
-		us = append(us, u)
+		foreignUnits[[2]int{script, dd}] = us
 	}
-	foreignUnits[script] = us
-	return us
+	return foreignUnits[key]
 }
 
 func (c *ctx) buildMitm(k kase) *mitm {
@@ -271,7 +398,7 @@ func (c *ctx) buildMitm(k kase) *mitm {
 		h := sha256.Sum256([]byte("verif-c20-mitm-ephemeral"))
 		m.Other = h[:]
 	case "splice":
-		us := c.foreign(k.Script)
+		us := c.foreign(k.Script, k.Dir)
 		if k.Frame < len(us) {
 			m.Other = us[k.Frame]
 		}
@@ -285,27 +412,44 @@ func (c *ctx) buildMitm(k kase) *mitm {
 	return m
 }
 
-// runMitm: a man in the middle on the A->B direction.
+// runMitm: a man in the middle on the direction k.Dir (0 = what A writes, 1 =
+// what B writes).  A party that never returns is re-tried; it is a verdict only
+// if it happens 3 times out of 3.
 func (c *ctx) runMitm(k kase) {
 	atomic.AddInt64(&c.evals, 1)
 	atomic.AddInt64(&c.mitmCases, 1)
-	sa, plainA := mkScript(mitmScripts[k.Script][0], 101)
-	sb, _ := mkScript(mitmScripts[k.Script][1], 202)
-	var s *session
-	var m *mitm
-	for try := 0; ; try++ {
-		m = c.buildMitm(k)
-		s = handshake([2]crypto.PrivKey{keyA, keyB}, m, [2][][]byte{sa, sb})
-		if s.aLo == k.ALo {
-			break
+	fl := c.begin(k, map[string]string{"part": "secretconn-mitm", "tamper": k.Tamper, "frame": frameClass(k.Frame)})
+	defer c.end(fl)
+	for attempt := 1; ; attempt++ {
+		fl.tick()
+		if hung := c.runMitmOnce(k, attempt == 1); !hung {
+			return
 		}
-		if try > 200 {
-			core.Fatal("cannot obtain a session in which A's ephemeral key is lo=%v", k.ALo)
+		if attempt == 3 {
+			sig := map[string]string{"part": "secretconn-mitm", "kind": "party-never-returns", "tamper": k.Tamper, "frame": frameClass(k.Frame)}
+			c.report(sig, k, fmt.Sprintf("%s at unit %d of direction %d (arg %d): the handshake units reached the receiver unaltered, yet a party did not return from MakeSecretConnection / Write within %v (3 times out of 3)", k.Tamper, k.Frame, k.Dir, k.Arg, handshakeDeadline))
+			return
 		}
 	}
+}
+
+func (c *ctx) runMitmOnce(k kase, count bool) (hung bool) {
+	snd, rcv := k.Dir, 1-k.Dir
+	scr := [2]*scriptData{scriptOf(k.Script, 0), scriptOf(k.Script, 1)}
+	plain := scr[snd].plain
+	keys := [2]crypto.PrivKey{keyA, keyB}
+	s := orderedSession(keys, func() [2]*mitm {
+		var ms [2]*mitm
+		ms[snd] = c.buildMitm(k)
+		return ms
+	}, [2][][]byte{scr[0].msgs, scr[1].msgs}, k.ALo)
 	part := "secretconn-mitm"
 	base := func(kind string) map[string]string {
-		return map[string]string{"part": part, "kind": kind, "tamper": k.Tamper, "frame": frameClass(k.Frame)}
+		m := map[string]string{"part": part, "kind": kind, "tamper": k.Tamper, "frame": frameClass(k.Frame)}
+		if farKinds[k.Tamper] {
+			m["script"] = "long"
+		}
+		return m
 	}
 	for i := 0; i < 2; i++ {
 		if s.pan[i] != "" {
@@ -315,48 +459,39 @@ func (c *ctx) runMitm(k kase) {
 			return
 		}
 	}
-	gen, ends := s.d.genuine(0)
-	del := s.d.deliveredBytes(0)
-	l := 0
-	for l < len(gen) && l < len(del) && gen[l] == del[l] {
-		l++
-	}
-	tampered := !(l == len(gen) && l == len(del))
-	if tampered {
+	nUnits, firstBad, tampered := s.d.divergence(snd)
+	if tampered && count {
 		atomic.AddInt64(&c.mitmApplied, 1)
 	}
-	firstBad := 1 << 30
-	if tampered {
-		firstBad = len(ends)
-		for i, e := range ends {
-			if e > l {
-				firstBad = i
-				break
-			}
-		}
+	if !tampered {
+		firstBad = 1 << 30
 	}
-	chunks := c.chunkSizes(mitmScripts[k.Script][0])
-	if s.err[0] == nil && len(ends) != 3+len(chunks) {
-		core.Fatal("framing assumption broken: %d units for %d chunks", len(ends), len(chunks))
+	chunks := c.chunkSizes(mitmScripts[k.Script][snd])
+	if !s.hung && s.err[snd] == nil && nUnits != 3+len(chunks) {
+		core.Fatal("framing assumption broken: %d units for %d chunks", nUnits, len(chunks))
 	}
-	bOK := s.err[1] == nil && s.sc[1] != nil
+	rOK := s.err[rcv] == nil && s.sc[rcv] != nil
 	if firstBad <= 2 {
-		c.classes.Add(fmt.Sprintf("mitm/%s/handshake-unit/rejected=%v", k.Tamper, !bOK))
-		if bOK {
-			c.report(base("tampered-handshake-accepted"), k, fmt.Sprintf("%s at unit %d (first altered unit %d): B's handshake succeeded, RemotePubKey=%v", k.Tamper, k.Frame, firstBad, s.sc[1].RemotePubKey()))
+		// (a receiver that waits for ever for the rest of a damaged handshake has not accepted it)
+		c.classes.Add(fmt.Sprintf("mitm/%s/handshake-unit/rejected=%v", k.Tamper, !rOK))
+		if rOK {
+			c.report(base("tampered-handshake-accepted"), k, fmt.Sprintf("%s at unit %d of direction %d (first altered unit %d): the receiver's handshake succeeded, RemotePubKey=%v", k.Tamper, k.Frame, k.Dir, firstBad, s.sc[rcv].RemotePubKey()))
 		}
 		return
 	}
-	// the handshake units reached B unaltered
-	if !bOK || s.err[0] != nil {
+	if s.hung {
+		return true
+	}
+	// the handshake units reached the receiver unaltered
+	if !rOK || s.err[snd] != nil {
 		c.report(base("handshake-failed-untampered"), k, fmt.Sprintf("handshake units unaltered but errA=%v errB=%v", s.err[0], s.err[1]))
 		return
 	}
-	if got := s.sc[1].RemotePubKey(); got == nil || !got.Equals(keyA.PubKey()) {
-		c.report(base("wrong-remote-pubkey"), k, fmt.Sprintf("RemotePubKey()=%v want %v", got, keyA.PubKey()))
+	if got := s.sc[rcv].RemotePubKey(); got == nil || !got.Equals(keys[snd].PubKey()) {
+		c.report(base("wrong-remote-pubkey"), k, fmt.Sprintf("RemotePubKey()=%v want %v", got, keys[snd].PubKey()))
 		return
 	}
-	allowed := len(plainA)
+	allowed := len(plain)
 	if tampered {
 		allowed = 0
 		for i := 3; i < firstBad && i-3 < len(chunks); i++ {
@@ -366,15 +501,19 @@ func (c *ctx) runMitm(k kase) {
 	var got []byte
 	var rerr error
 	p, v, st := core.Try(func() {
-		for step := 0; step < 64; step++ {
-			buf := make([]byte, 2048)
-			n, err := s.sc[1].Read(buf)
+		got = make([]byte, 0, allowed+4096)
+		buf := make([]byte, 2048)
+		for step := 0; step < len(chunks)+64; step++ {
+			n, err := s.sc[rcv].Read(buf)
 			if n < 0 || n > len(buf) {
 				n = 0
 			}
 			got = append(got, buf[:n]...)
 			if err != nil {
 				rerr = err
+				break
+			}
+			if len(got) > len(plain)+8192 {
 				break
 			}
 		}
@@ -387,7 +526,7 @@ func (c *ctx) runMitm(k kase) {
 	}
 	verdict := "ok"
 	switch {
-	case !bytes.HasPrefix(plainA, got):
+	case !bytes.HasPrefix(plain, got):
 		verdict = "altered-bytes-returned"
 	case len(got) > allowed:
 		verdict = "tampered-frame-accepted"
@@ -398,9 +537,14 @@ func (c *ctx) runMitm(k kase) {
 	}
 	c.classes.Add(fmt.Sprintf("mitm/%s/data-unit/%s/tampered=%v", k.Tamper, verdict, tampered))
 	if verdict != "ok" {
-		c.report(base(verdict), k, fmt.Sprintf("%s at unit %d (arg %d, first altered unit %d, A's key lo=%v): A wrote %d bytes, B obtained %d (allowed %d), prefix-of-genuine=%v, final error %v",
-			k.Tamper, k.Frame, k.Arg, firstBad, k.ALo, len(plainA), len(got), allowed, bytes.HasPrefix(plainA, got), rerr))
+		l := 0
+		for l < len(got) && l < len(plain) && got[l] == plain[l] {
+			l++
+		}
+		c.report(base(verdict), k, fmt.Sprintf("%s at unit %d of direction %d (arg %d, first altered unit %d, A's key lo=%v): the sender wrote %d bytes, the receiver obtained %d (allowed %d), of which the first %d are the sender's, final error %v",
+			k.Tamper, k.Frame, k.Dir, k.Arg, firstBad, k.ALo, len(plain), len(got), allowed, l, rerr))
 	}
+	return
 }
 
 func frameClass(f int) string {
@@ -414,6 +558,18 @@ func frameClass(f int) string {
 	}
 }
 
+// farAnchors: the units whose copies / displacements are tried at every
+// distance: the two sealed handshake frames, the first data frame, and the
+// frames on either side of the places where the frame counter carries out of
+// its last byte (sealed frame j = unit j+1 uses counter value 2j (+1), so the
+// carries lie between units 128|129, 256|257, 384|385, 512|513).
+func farAnchors(quick bool) []int {
+	if quick {
+		return []int{1, 3, 128, 129}
+	}
+	return []int{1, 2, 3, 4, 127, 128, 129, 130, 256, 257, 384, 385}
+}
+
 func (c *ctx) mitmCases_(quick bool) []kase {
 	var out []kase
 	scripts := []int{0}
@@ -424,61 +580,83 @@ func (c *ctx) mitmCases_(quick bool) []kase {
 	}
 	sealed := p2p.VerifSealedFrameSize
 	for _, sc := range scripts {
-		chunks := c.chunkSizes(mitmScripts[sc][0])
-		nUnits := 3 + len(chunks)
+		for _, dir := range []int{0, 1} {
+			chunks := c.chunkSizes(mitmScripts[sc][dir])
+			nUnits := 3 + len(chunks)
+			nOpp := 3 + len(c.chunkSizes(mitmScripts[sc][1-dir]))
+			for _, lo := range []bool{true, false} {
+				for f := 0; f <= 4 && f < nUnits; f++ {
+					add := func(t string, arg, bit int) {
+						out = append(out, kase{Part: "mitm", Tamper: t, Frame: f, Arg: arg, Bit: bit, ALo: lo, Script: sc, Dir: dir})
+					}
+					size := sealed
+					var offs []int
+					if f == 0 {
+						size = 32
+						offs = []int{0, 15, 16, 31}
+					} else {
+						// secretbox: 16 bytes authenticator, then ciphertext of [2-byte length | payload | padding]
+						dl := 4 // auth length frame carries 4 bytes
+						if f >= 3 {
+							dl = chunks[f-3]
+						}
+						offs = []int{0, 7, 15, 16, 17, 18, 18 + dl - 1, 18 + dl, sealed - 1}
+						if f == 2 {
+							offs = []int{0, 7, 15, 16, 17, 18, 50, 100, sealed - 1}
+						}
+					}
+					for _, o := range uniqInts(offs) {
+						if o < 0 || o >= size {
+							continue
+						}
+						for _, b := range bits {
+							add("flip", o, b)
+						}
+					}
+					if f+1 < nUnits {
+						add("swap", 0, 0)
+					}
+					add("replay", 0, 0)
+					add("drop", 0, 0)
+					add("insert", 0, 0)
+					add("splice", 0, 0)
+					for _, kk := range uniqInts([]int{1, size / 2, size - 1}) {
+						add("trunc", kk, 0)
+					}
+					for _, kk := range uniqInts([]int{0, 1, size / 2, size - 1}) {
+						add("cut", kk, 0)
+					}
+					if f == 0 {
+						add("subst", 0, 0)
+						add("reflect", 0, 0)
+					} else {
+						// the opposite direction's unit g must exist without the receiver needing
+						// the unit that is being replaced: a party's data units (3..) only exist
+						// once its handshake is over, so they can only be reflected into data units
+						for _, g := range []int{f - 1, f, f + 1} {
+							if g >= 1 && g < nOpp && (f >= 3 || g <= 2) {
+								add("reflect", g, 0)
+							}
+						}
+					}
+				}
+			}
+		}
+	}
+	// long scripts: copies and displacements at every distance
+	for _, dir := range []int{0, 1} {
+		nUnits := 3 + len(c.chunkSizes(mitmScripts[longScriptIdx][dir]))
 		for _, lo := range []bool{true, false} {
-			for f := 0; f <= 4 && f < nUnits; f++ {
-				add := func(t string, arg, bit int) {
-					out = append(out, kase{Part: "mitm", Tamper: t, Frame: f, Arg: arg, Bit: bit, ALo: lo, Script: sc})
-				}
-				size := sealed
-				var offs []int
-				if f == 0 {
-					size = 32
-					offs = []int{0, 15, 16, 31}
-				} else {
-					// secretbox: 16 bytes authenticator, then ciphertext of [2-byte length | payload | padding]
-					dl := 4 // auth length frame carries 4 bytes
-					if f >= 3 {
-						dl = chunks[f-3]
-					}
-					offs = []int{0, 7, 15, 16, 17, 18, 18 + dl - 1, 18 + dl, sealed - 1}
-					if f == 2 {
-						offs = []int{0, 7, 15, 16, 17, 18, 50, 100, sealed - 1}
-					}
-				}
-				for _, o := range uniqInts(offs) {
-					if o < 0 || o >= size {
+			for _, a := range farAnchors(quick) {
+				for _, t := range farKindList {
+					if a < 3 && t != "far-replay" && t != "far-overwrite" {
+						// a handshake frame is only ever copied into the data stream; a data
+						// frame is never moved into the handshake (its first bytes would be
+						// taken for the length of the auth message if it ever decrypted)
 						continue
 					}
-					for _, b := range bits {
-						add("flip", o, b)
-					}
-				}
-				if f+1 < nUnits {
-					add("swap", 0, 0)
-				}
-				add("replay", 0, 0)
-				add("drop", 0, 0)
-				add("insert", 0, 0)
-				add("splice", 0, 0)
-				for _, kk := range uniqInts([]int{1, size / 2, size - 1}) {
-					add("trunc", kk, 0)
-				}
-				for _, kk := range uniqInts([]int{0, 1, size / 2, size - 1}) {
-					add("cut", kk, 0)
-				}
-				if f == 0 {
-					add("subst", 0, 0)
-					add("reflect", 0, 0)
-				} else {
-					// the opposite direction's unit g must exist without B needing the unit
-					// that is being replaced: B's data units (3..5) only exist once B's
-					// handshake is over, so they can only be reflected into data units
-					for _, g := range []int{f - 1, f, f + 1} {
-						if g >= 1 && g < 6 && (f >= 3 || g <= 2) {
-							add("reflect", g, 0)
-						}
+					for d := 1; a+d < nUnits; d++ {
+						out = append(out, kase{Part: "mitm", Tamper: t, Frame: a, Arg: d, ALo: lo, Script: longScriptIdx, Dir: dir})
 					}
 				}
 			}
@@ -546,18 +724,26 @@ func (c *ctx) runAuth(k kase) {
 	default:
 		core.Fatal("unknown lie %q", k.Lie)
 	}
-	var s *session
-	for try := 0; ; try++ {
-		s = handshake([2]crypto.PrivKey{lk, keyB}, nil, [2][][]byte{})
-		if s.aLo == k.ALo {
-			break
-		}
-		if try > 200 {
-			core.Fatal("cannot obtain wanted key order")
-		}
-	}
 	sig := func(kind string) map[string]string {
 		return map[string]string{"part": "secretconn-auth", "kind": kind, "lie": k.Lie}
+	}
+	fl := c.begin(k, sig(""))
+	defer c.end(fl)
+	var s *session
+	for attempt := 1; ; attempt++ {
+		fl.tick()
+		s = orderedSession([2]crypto.PrivKey{lk, keyB}, func() [2]*mitm { return [2]*mitm{} }, [2][][]byte{}, k.ALo)
+		if !s.hung {
+			break
+		}
+		if attempt == 3 {
+			if expectKey != nil {
+				c.report(sig("party-never-returns"), k, fmt.Sprintf("honest handshake: a party did not return from MakeSecretConnection within %v (3 times out of 3)", handshakeDeadline))
+			}
+			// (a liar that is never answered has not been accepted)
+			c.classes.Add(fmt.Sprintf("auth/%s/accepted=hang", k.Lie))
+			return
+		}
 	}
 	if s.pan[1] != "" {
 		m := sig("panic")
